@@ -1,7 +1,7 @@
 (* C04 — Content-Length bodies arrive byte-exact under any read fragmentation.
    This file contains only statements, each closed by [exact] of a lemma from
    proofs/C04_proofs.v, followed by Print Assumptions. *)
-From Verif Require Import lib.Base model.Stream model.Body model.ReqBody proofs.C04_proofs proofs.C04_request.
+From Verif Require Import lib.Base gen.Gen model.Stream model.Body model.ReqBody proofs.C04_proofs proofs.C04_request.
 
 (* For every data, declared length (any integer), buffer size > 0 and read
    fragmentation schedule: the body is exactly the first Content-Length bytes
@@ -93,6 +93,23 @@ Theorem C04_copy_presents_same_body :
                /\ cached w' (length (w_reqs w)) c /\ w_streams w' = w_streams w.
 Proof. exact cached_copy. Qed.
 Print Assumptions C04_copy_presents_same_body.
+
+(* The model's header-rewrite steps (OSetCL, OSetOther) keep the buffered body.
+   That is what the code's own invalidation table says — the table is extracted
+   from BaseRequest._on_env_changed on every run (Gen.env_changed_table): the
+   only environ key whose assignment drops the cached view 'body' is
+   'wsgi.input' (the model's OSetInput) ... *)
+Theorem C04_only_new_input_drops_buffered_body :
+  forall key, drops_body Gen.env_changed_table key = true -> key = s_wsgi_input.
+Proof. exact only_new_input_drops_body_lemma. Qed.
+Print Assumptions C04_only_new_input_drops_buffered_body.
+
+(* ... and that view is the one BodyMixin._body is cached under, which
+   BodyMixin.body returns rewound (shape extracted from the source). *)
+Theorem C04_body_view_is_cache_key :
+  Gen.body_cache_key = Gen.env_cache_prefix ++ s_body_view /\ Gen.body_property_rewinds_cached = true.
+Proof. exact body_view_is_cache_key. Qed.
+Print Assumptions C04_body_view_is_cache_key.
 
 (* Record (documented behaviour, DESIGN 0.6): a copy taken BEFORE the first
    access shares the one unread server stream with the original, so the object
